@@ -284,6 +284,15 @@ impl Signature {
     /// after it to the right
     pub fn unhashed_subpacket_insert(&mut self, index: usize, subpacket: Subpacket) -> Result<()> {
         if let InnerSignature::Known { ref mut config, .. } = self.inner {
+            ensure!(
+                matches!(
+                    config.version(),
+                    SignatureVersion::V4 | SignatureVersion::V6
+                ),
+                "{:?} signatures have no unhashed subpacket area",
+                config.version()
+            );
+
             if let PacketLength::Fixed(packetlen) = self.packet_header.packet_length_mut() {
                 ensure!(
                     // `<=`, because index may point to the entry *after* the last element
@@ -313,6 +322,15 @@ impl Signature {
     /// unhashed subpackets to the left
     pub fn unhashed_subpacket_remove(&mut self, index: usize) -> Result<Subpacket> {
         if let InnerSignature::Known { ref mut config, .. } = self.inner {
+            ensure!(
+                matches!(
+                    config.version(),
+                    SignatureVersion::V4 | SignatureVersion::V6
+                ),
+                "{:?} signatures have no unhashed subpacket area",
+                config.version()
+            );
+
             ensure!(
                 // `<`, because index must point at45 an existing element
                 index < config.unhashed_subpackets.len(),
